@@ -9,8 +9,11 @@
     the cache by getCertificateFromCache").
 
     Here: (1) those five operations are simulated by C12's [add_cert] (while the cache is below
-    capacity), [remove_cert], [replace_cert], [write_back] (the guarded write-back of
-    handshakeMaintenance, fix 583673e) and [alookup], under C12's invariant; (2) the oracle, when
+    capacity), [remove_cert], [replace_cert], [alookup], and for [cache_update] (replace the entry
+    by an updated copy): in general the guarded whole-copy write-back [write_back_whole_copy]
+    (handshakeMaintenance as it was after fix 583673e), and -- what the code does now -- when the
+    copy differs from the cached entry only in its staple / its ARI, exactly C12's one-field
+    write-backs [write_back] (= set_ocsp_at) / [set_ari_at], under C12's invariant; (2) the oracle, when
     it is what C03's [from_cache] answers on the C12 state, always names a certificate that
     [cache_find] finds, and that certificate lists the name it was found under.
     NOT refined: a cacheCertificate at capacity (C12 evicts, the handshake model does not):
@@ -36,9 +39,10 @@ Section RefineH.
   (** the cached value: hash, Names, managed; the OCSP status and the ARI marker stand for the
       fields the write-back changes *)
   Definition hconc (c : hcert) : cert :=
-    Cert (eh (h_id c)) (h_names c) (Handshake.Model.c_managed c) [] []
-         (if Handshake.Model.c_revoked c then 1 else 0)%Z
-         (match Handshake.Model.c_ari c with Some true => [1%N] | Some false => [0%N] | None => [] end).
+    {| c_hash := eh (h_id c); c_names := h_names c; c_managed := Handshake.Model.c_managed c;
+       c_issuer := []; c_tags := [];
+       c_ocsp := (if Handshake.Model.c_revoked c then 1 else 0)%Z;
+       c_ari := match Handshake.Model.c_ari c with Some true => [1%N] | Some false => [0%N] | None => [] end |}.
   Definition hok (c : hcert) : Prop := names_of (eh (h_id c)) = h_names c.
   Definition RH (cap : nat) (w : hworld) (s : state) : Prop :=
     map snd (cache s) = map hconc (w_cache w) /\ Inv names_of cap s.
@@ -93,7 +97,7 @@ Section RefineH.
     unfold add_cert, Handshake.Model.cache_add. rewrite (cache_has_amem cap w s (h_id c) HR).
     change (c_hash (hconc c)) with (eh (h_id c)).
     destruct (amem (eh (h_id c)) (cache s)) eqn:E.
-    - apply amem_alookup in E. destruct E as [e He]. rewrite He. cbn [hconc c_tags is_nil]. exact Hm.
+    - apply amem_alookup in E. destruct E as [e He]. rewrite He, tags_guard_eq. cbn [hconc c_tags is_nil negb]. exact Hm.
     - pose proof E as E'. apply amem_false_alookup in E'. rewrite E', Hcap. cbn [cache].
       unfold ainsert. rewrite E. cbn [Handshake.Model.set_cache Handshake.Model.w_cache]. rewrite !map_app, Hm. reflexivity.
   Qed.
@@ -130,12 +134,12 @@ Section RefineH.
     apply refine_h_add; [apply refine_h_remove; assumption | exact Hn | exact Hcap].
   Qed.
 
-  (** the guarded write-back of an updated copy (handshakeMaintenance / updateARI) *)
+  (** replacing the entry by an updated copy = the guarded whole-copy write-back *)
   Theorem refine_h_update cap w s c :
-    RH cap w s -> hok c -> RH cap (Handshake.Model.cache_update c w) (write_back (hconc c) s).
+    RH cap w s -> hok c -> RH cap (Handshake.Model.cache_update c w) (write_back_whole_copy (hconc c) s).
   Proof.
-    intros HR Hok. pose proof HR as [Hm HI]. split; [|apply write_back_inv; [exact HI | left; symmetry; exact Hok]].
-    unfold write_back, Handshake.Model.cache_update. change (c_hash (hconc c)) with (eh (h_id c)).
+    intros HR Hok. pose proof HR as [Hm HI]. split; [|apply write_back_whole_copy_inv; [exact HI | left; symmetry; exact Hok]].
+    unfold write_back_whole_copy, Handshake.Model.cache_update. change (c_hash (hconc c)) with (eh (h_id c)).
     cbn [Handshake.Model.set_cache Handshake.Model.w_cache].
     assert (Hk : forall k x, In (k, x) (cache s) -> c_hash x = k).
     { intros k x Hin. apply In_alookup in Hin; [|apply (inv_nodup _ _ s HI)].
@@ -158,6 +162,40 @@ Section RefineH.
       apply map_ext_in. intros x Hx. apply (in_values_alookup names_of cap s x HI) in Hx.
       destruct (str_eqb_spec (eh (h_id c)) (c_hash x)) as [E'|_]; [|reflexivity].
       apply amem_false_alookup in E. rewrite E' in E. congruence.
+  Qed.
+
+  (** ... which IS C12's one-field write-back when the copy differs from the cached entry only in
+      that field: the staple (handshakeMaintenance now: re-read under the lock, store the staple) *)
+  Lemma whole_copy_is_write_back s c e :
+    alookup (c_hash c) (cache s) = Some e -> c = set_ocsp e (c_ocsp c) ->
+    write_back_whole_copy c s = write_back c s.
+  Proof.
+    intros He Hc. unfold write_back_whole_copy, write_back, set_ocsp_at. cbn [fst snd].
+    unfold amem. rewrite He. rewrite <- Hc. reflexivity.
+  Qed.
+  (** ... or the renewal information (updateARI) *)
+  Lemma whole_copy_is_set_ari s c e v :
+    alookup (c_hash c) (cache s) = Some e -> c = set_ari e v ->
+    write_back_whole_copy c s = set_ari_at (c_hash c) v s.
+  Proof.
+    intros He Hc. unfold write_back_whole_copy, set_ari_at. unfold amem. rewrite He. rewrite <- Hc. reflexivity.
+  Qed.
+  Theorem refine_h_update_staple cap w s c x :
+    RH cap w s -> hok c -> Handshake.Model.cache_find (h_id c) w = Some x ->
+    hconc c = set_ocsp (hconc x) (c_ocsp (hconc c)) ->
+    RH cap (Handshake.Model.cache_update c w) (write_back (hconc c) s).
+  Proof.
+    intros HR Hok Hx Hc. pose proof (refine_find cap w s (h_id c) HR) as Hf. rewrite Hx in Hf.
+    rewrite <- (whole_copy_is_write_back s (hconc c) (hconc x) Hf Hc). apply refine_h_update; assumption.
+  Qed.
+  Theorem refine_h_update_ari cap w s c x v :
+    RH cap w s -> hok c -> Handshake.Model.cache_find (h_id c) w = Some x ->
+    hconc c = set_ari (hconc x) v ->
+    RH cap (Handshake.Model.cache_update c w) (set_ari_at (eh (h_id c)) v s).
+  Proof.
+    intros HR Hok Hx Hc. pose proof (refine_find cap w s (h_id c) HR) as Hf. rewrite Hx in Hf.
+    change (eh (h_id c)) with (c_hash (hconc c)).
+    rewrite <- (whole_copy_is_set_ari s (hconc c) (hconc x) v Hf Hc). apply refine_h_update; assumption.
   Qed.
 
   (** the oracle [h_hit]: what C03's getCertificateFromCache answers on the C12 state is a
@@ -192,8 +230,8 @@ Section RefineH.
     - split; [|exact Hcase]. rewrite <- Hcc in Hv. exact Hv.
   Qed.
 
-  Lemma RH_init cap od : RH cap (Handshake.Model.World od cap [] [] 0 0%N) init.
-  Proof. split; [reflexivity | apply inv_init]. Qed.
+  Lemma RH_init cap w : w_cache w = [] -> RH cap w init.
+  Proof. intros Hw. split; [rewrite Hw; reflexivity | apply inv_init]. Qed.
 End RefineH.
 
 (** ---- non-vacuity: a world and a C12 state in lock step; the oracle instantiated by C03 ---- *)
@@ -206,11 +244,21 @@ Definition hx_ax : name := [97; 46; 120]%N.          (* a.x *)
 Definition hx_wx : name := [42; 46; 120]%N.          (* *.x *)
 Definition hx_names_of (h : hash) : list name :=
   match h with [1%N] => [hx_ax] | [2%N] => [hx_wx] | [3%N] => [hx_ax] | _ => [] end.
-Definition hx_c0 := Handshake.Model.Cert 0 [hx_ax] true true false false false None.        (* a.x, due *)
-Definition hx_c1 := Handshake.Model.Cert 1 [hx_wx] false false false false false None.      (* *.x *)
-Definition hx_c2 := Handshake.Model.Cert 2 [hx_ax] true false false false false None.       (* a.x renewed *)
-Definition hx_c1' := Handshake.Model.Cert 1 [hx_wx] false false false true false None.      (* *.x, now revoked *)
-Definition hx_w0 := Handshake.Model.World None 3 [] [] 0 0%N.
+Definition hx_c0 : hcert :=
+  {| Handshake.Model.c_id := 0%N; Handshake.Model.c_names := [hx_ax]; Handshake.Model.c_managed := true; Handshake.Model.c_due := true;
+     Handshake.Model.c_expired := false; Handshake.Model.c_revoked := false; Handshake.Model.c_keycomp := false; Handshake.Model.c_ari := None |}.        (* a.x, due *)
+Definition hx_c1 : hcert :=
+  {| Handshake.Model.c_id := 1%N; Handshake.Model.c_names := [hx_wx]; Handshake.Model.c_managed := false; Handshake.Model.c_due := false;
+     Handshake.Model.c_expired := false; Handshake.Model.c_revoked := false; Handshake.Model.c_keycomp := false; Handshake.Model.c_ari := None |}.      (* *.x *)
+Definition hx_c2 : hcert :=
+  {| Handshake.Model.c_id := 2%N; Handshake.Model.c_names := [hx_ax]; Handshake.Model.c_managed := true; Handshake.Model.c_due := false;
+     Handshake.Model.c_expired := false; Handshake.Model.c_revoked := false; Handshake.Model.c_keycomp := false; Handshake.Model.c_ari := None |}.       (* a.x renewed *)
+Definition hx_c1' : hcert :=
+  {| Handshake.Model.c_id := 1%N; Handshake.Model.c_names := [hx_wx]; Handshake.Model.c_managed := false; Handshake.Model.c_due := false;
+     Handshake.Model.c_expired := false; Handshake.Model.c_revoked := true; Handshake.Model.c_keycomp := false; Handshake.Model.c_ari := None |}.      (* *.x, now revoked *)
+Definition hx_w0 : hworld :=
+  {| Handshake.Model.w_od := None; Handshake.Model.w_cap := 3; Handshake.Model.w_cache := []; Handshake.Model.w_store := [];
+     Handshake.Model.w_evals := 0; Handshake.Model.w_fresh := 0%N |}.
 
 Example handshake_cache_run :
   let w := Handshake.Model.cache_update hx_c1'
@@ -222,16 +270,16 @@ Example handshake_cache_run :
   RH heh hx_names_of 3 w s /\
   map h_id (w_cache w) = [1; 2]%N /\ akeys (cache s) = [heh 1; heh 2] /\
   (* C03's lookup on the C12 state, for SNI "a.x" and "q.x", and what the handshake model finds *)
-  from_cache ascii_lower ascii_space (fun _ => true) (fun _ => true) s (Config [] []) hx_ax [] =
+  from_cache ascii_lower ascii_space (fun _ => true) (fun _ => true) s {| default_name := []; fallback_name := [] |} hx_ax [] =
     Some (hconc heh hx_c2, true, hx_ax) /\
   Handshake.Model.cache_find 2 w = Some hx_c2 /\
-  from_cache ascii_lower ascii_space (fun _ => true) (fun _ => true) s (Config [] []) [113; 46; 120]%N [] =
+  from_cache ascii_lower ascii_space (fun _ => true) (fun _ => true) s {| default_name := []; fallback_name := [] |} [113; 46; 120]%N [] =
     Some (hconc heh hx_c1', true, hx_wx) /\
   Handshake.Model.cache_find 1 w = Some hx_c1'.
 Proof.
   split; [|vm_compute; repeat split].
-  apply (refine_h_update heh heh_inj); [|reflexivity].
+  apply (refine_h_update_staple heh heh_inj hx_names_of 3 _ _ hx_c1' hx_c1); [|reflexivity|reflexivity|reflexivity].
   apply (refine_h_replace heh heh_inj heh_nonempty); [| reflexivity | reflexivity | reflexivity].
   apply (refine_h_add heh heh_inj heh_nonempty); [| reflexivity | reflexivity].
-  apply (refine_h_add heh heh_inj heh_nonempty); [apply RH_init | reflexivity | reflexivity].
+  apply (refine_h_add heh heh_inj heh_nonempty); [apply RH_init; reflexivity | reflexivity | reflexivity].
 Qed.
